@@ -92,6 +92,25 @@ def register(ctx, prog):
                 else:
                     ctx.violation(rule, body.id, "last_wills." + name, "the will table is modified from an unexpected function", site=body.loc(t.get("sp")))
     ctx.floor(rule, "last_wills mutations", n, 3)
+    # whose will is it?  last_wills is keyed by client id and Event::PublishWill names a client id only, so the entry
+    # must always belong to the client's LATEST connection: an admitted connect has to decide (publish or remove) what
+    # its predecessor left there before it stores — or does not store — its own.  Otherwise the task of an older
+    # connection (still waiting for a decision on a will the router may long have discarded) publishes the new
+    # connection's will while that connection is alive, or a connection without a will inherits its predecessor's.
+    hnc = prog.one(r"^router::routing::Router::handle_new_connection$")
+    regs = [b2 for b2, t2 in hnc.calls() if re.search(r"^slab::Slab::<T>::insert$", callee_path(t2)) and not hnc.is_cleanup(b2)]
+    decides = [b2 for b2, t2 in hnc.calls() if not hnc.is_cleanup(b2) and (
+        callee_path(t2).endswith("Router::handle_last_will")
+        or ((receiver_fields(hnc, t2) or [None])[-1] == "last_wills" and callee_path(t2).rsplit("::", 1)[-1] in ("remove", "remove_entry")))]
+    if not regs:
+        raise AnchorMissing("handle_new_connection: registration of the connection (Slab::insert) not found")
+    if decides and must_pass(hnc, [0], regs, via_blocks=set(decides), include_from=True):
+        ctx.ok(rule, hnc.id, "every admitted connect decides the will its predecessor left under the client id", site=hnc.fn_loc())
+    else:
+        ctx.violation(rule, hnc.id, "predecessor's will not decided at admission",
+                      "handle_new_connection registers a connection without publishing or removing the will still stored under its client id, and Event::PublishWill is addressed by client id only: "
+                      "the task of an earlier connection (which keeps waiting for a decision even after the client's DISCONNECT discarded its will) publishes the NEW connection's will while that connection is alive, "
+                      "and a connection without a will inherits its predecessor's", site=hnc.fn_loc())
     # the Disconnect arm cancels the will
     sw = packet_switch(hdp)
     dom = dominators(hdp)
